@@ -327,6 +327,15 @@ def _check_state(P: Program, rep: Report) -> None:  # noqa: C901
                        f"{f.name} is on the parse path and is memoised ({', '.join(sorted(bad))}): a later parse of the same text gets the SAME AST object back, "
                        f"including whatever an earlier caller did to it (create_ast_with_comments extends and sorts ast.children in place)"))
     rep.floor("R23.3 parse-path functions", n, 150)
+    # objects built once at import time and handed out by the constructor: every AST that embeds one shares it with every other
+    # parse (expected count on a sound tree: 0; positive example: seeded change C23_3 in the thorough self-test)
+    for qn, cq, rel_, line_, users in globalsx.module_level_objects(P, ("vtlengine.AST", "vtlengine.API")):
+        on_path = [u for u in users if u in path]
+        rep.instance("R23.3", f"shared-object/{qn}", sample={"class": cq, "users": users[:4]})
+        if on_path:
+            rep.add(_f("R23.3", f"shared-object/{qn}", rel_, line_, qn,
+                       f"`{qn}` is ONE {cq.split('.')[-1]} object created at import time and used by {', '.join(x.split('.')[-1] for x in on_path[:3])} on the parse path: every AST that "
+                       f"embeds it shares it with every earlier and later parse, so a field set while building one tree (or by a caller editing its AST) shows up in the others"))
     # module-level caches written by hand:  name[key] = ast  in a parse-path function of API
     # process-global containers written by the constructor must be re-initialised per parse
     G = globalsx.inventory(P)
